@@ -169,12 +169,26 @@ class Real:
         await (usim.time + d)
         return v
 
-    async def watcher(self, k):
+    async def watcher(self, k, hold=0):
         try:
             v = await self.events[k]
             self.watch_log.append((k, 'got', usim.time.now, self.norm(v)))
         except SpyErr as e:
             self.watch_log.append((k, 'raised', usim.time.now, e.eid))
+        if hold:
+            # the activity that handled the outcome goes on in the same frame
+            await (usim.time + hold)
+            self.watch_log.append((k, 'held', usim.time.now, None))
+
+    async def careless_host(self, k):
+        """an activity of its own scope that waits for the event and dies of its failure"""
+        async def careless():
+            await self.events[k]
+        try:
+            async with usim.Scope() as scope:
+                scope.do(careless())
+        except usim.Concurrent:
+            pass
 
     def until_arg(self):
         u = self.prog.get('until')
@@ -211,7 +225,9 @@ def run_embedded(prog):
         r.setup(env)
         async with usim.Scope() as scope:
             for k in prog.get('watch', ()):
-                scope.do(r.watcher(k), volatile=True)
+                scope.do(r.watcher(k, prog.get('watch_hold', 0)), volatile=True)
+            for k in prog.get('careless', ()):
+                scope.do(r.careless_host(k), volatile=True)
             u = r.until_arg()
             await env.until(u)
             res['now_inside'] = env.now
